@@ -35,6 +35,14 @@ def main():
             except Exception as e:
                 rec = {"target": c.target, "label": c.short, "index": k, "verdict": "error", "res": traceback.format_exc()[-1500:]}
             print("WITNESS " + json.dumps(rec, default=str), flush=True)
+            if rec.get("verdict") == "holds" and k < len(c.witness) + 4:
+                try:
+                    from .crosscheck import crosscheck
+                    pid = sys.argv[1].split(".")[-1]
+                    cv, detail = crosscheck(pid, c, inst, kwargs)
+                except Exception as e:
+                    cv, detail = "skipped", f"{type(e).__name__}: {e}"[:200]
+                print("CROSSCHECK " + json.dumps({"target": c.target, "label": c.short, "index": k, "verdict": cv, "detail": detail}, default=str), flush=True)
 
 
 if __name__ == "__main__":
